@@ -320,8 +320,8 @@ func (g *gen) value(t reflect.Type, bud int, field string) reflect.Value {
 			n, fixed = types.ValidatorsSuperMajority, true
 		} else if field == "TicketsOrKeys.Tickets" || field == "TicketsOrKeys.Keys" {
 			n, fixed = types.EpochLength, true
-		} else if ml, ok := g.maxLen(name); ok && n > ml {
-			n = ml
+		} else if ml, ok := g.maxLen(name); ok && (n > ml || (g.mode == 0 && g.r.N(4) == 0)) {
+			n = ml // the permitted maximum itself
 		}
 		if t.Elem().Size() > 2000 && n > 2 { // export segments
 			n = 2
